@@ -8,7 +8,7 @@ from . import coqgen as G
 from .common import *
 
 ID = "C03"
-PROPS = ["Prop_C03"]
+PROPS = ["Prop_C03", "Prop_C03_exact"]
 IMPORTS = "From MV Require Import Base Num NumFloat Lifecycle Corr Adwin Corr_C03.\nFrom Coq Require Import PrimFloat."
 CORR_NAME = "Corr_C03: Adwin.v (exponential histogram, scan, shrink; NumFloat, log as tabulated oracle) = adwin.py / adwin_accuracy.py, bit-for-bit"
 TRUSTED = ["Coq 8.16.1 kernel + vm_compute + primitive floats",
